@@ -931,6 +931,11 @@ func Run(c *ev.Ctx) int {
 		defer wg.Done()
 		laneSlow(c, proxyExtraEnv)
 	}()
+	wg.Add(1)
+	go func() {
+		defer wg.Done()
+		laneRefusedOwnerChange(c, proxyExtraEnv)
+	}()
 	ch := make(chan job)
 	for w := 0; w < workers; w++ {
 		wg.Add(1)
